@@ -469,6 +469,13 @@ func (d *driver) tagStat(stageTag string) *tagStat {
 
 func (d *driver) spec(from int, only []int) childSpec {
 	maxIdx, _ := strconv.Atoi(os.Getenv("C04_MAXIDX"))
+	if v := os.Getenv("C04_ONLY"); v != "" && only == nil { // debugging aid: run only these input indices
+		for _, f := range strings.Split(v, ",") {
+			if n, err := strconv.Atoi(f); err == nil {
+				only = append(only, n)
+			}
+		}
+	}
 	stackMB := 16
 	if d.bigStack {
 		stackMB = 64
@@ -1030,7 +1037,6 @@ func main() {
 			"HANG = the input alone exceeds 30 s CPU (or 90 s without progress and without CPU use), in 3 fresh processes out of 3; in a batch an input is only a suspect after 12 s CPU",
 			"after a confirmed hang (or an out-of-memory death from an attacker-sized allocation) the stage group runs under a 1 s CPU watchdog for later inputs: inputs over it are counted as suspected hangs, not as verdicts (reported as a cap)",
 			"a process death that the harness' reference model of the TOC/tar structure predicts (hardlink cycle, children-graph cycle, prioritized-file cycle) is executed until two predicted deaths with one key have been observed in the run; later inputs with the same prediction are not pushed through that stage (reported as a cap); any misprediction makes the check BROKEN",
-			"the db metadata reader is compiled from cmd/containerd-stargz-grpc/db/{reader,db}.go under the virtual import path metadata/verifdb (the cmd module is not importable from the harness module)",
 			"fs/layer FUSE nodes are not constructed; reads are issued against fs/reader the way node.go's file.Read does (offset < attr.Size)",
 		},
 		QuickBudget: 225 * time.Second, ThoroughBudget: 28 * time.Minute,
